@@ -166,7 +166,12 @@ func (d *DefaultClientDispatcher) SendRequest(req RequestBundle) error {
 		return err
 	}
 	d.mutex.RLock()
-	d.requestChannel <- true
+	// The token only wakes up the message pump: when one is pending already, the pump will find this request in the queue.
+	// Never block here while holding the lock: Pause, Stop and the pump itself need it.
+	select {
+	case d.requestChannel <- true:
+	default:
+	}
 	d.mutex.RUnlock()
 	return nil
 }
